@@ -249,10 +249,37 @@ func (it IntT) inRange(k intKind, t Sx) Sx {
 
 func (it IntT) add(k intKind, a, b Sx) Sx {
 	if it.mode == ModeBV {
+		if a == fmt.Sprintf("(_ bv0 %d)", k.bits) {
+			return b
+		}
+		if b == fmt.Sprintf("(_ bv0 %d)", k.bits) {
+			return a
+		}
 		return sx("bvadd", a, b)
+	}
+	if a == "0" {
+		return b
+	}
+	if b == "0" {
+		return a
 	}
 	return it.wrap(k, sx("+", a, b))
 }
+// addNW: addition of quantities known not to overflow (slice offsets and lengths are bounded by
+// 2^40 by the well-formedness facts of every slice value), so no wrap in the int encoding.
+func (it IntT) addNW(a, b Sx) Sx {
+	if it.mode == ModeBV {
+		return it.add(I64, a, b)
+	}
+	if a == "0" {
+		return b
+	}
+	if b == "0" {
+		return a
+	}
+	return sx("+", a, b)
+}
+
 func (it IntT) sub(k intKind, a, b Sx) Sx {
 	if it.mode == ModeBV {
 		return sx("bvsub", a, b)
